@@ -23,8 +23,8 @@ func (e *Exec) ghostEffects(st *State, iter func(*State)) {
 	for _, j := range f.jumps {
 		saveJ = append(saveJ, jl{len(j.breaks), len(j.continues)})
 	}
-	saveQuiet := e.quiet
-	e.quiet = true
+	saveQuiet, saveDry := e.quiet, e.dry
+	e.quiet, e.dry = true, true
 	saveNotes := map[string]int{}
 	for k, v := range e.notes {
 		saveNotes[k] = v
@@ -34,7 +34,7 @@ func (e *Exec) ghostEffects(st *State, iter func(*State)) {
 	f.jumps = append(f.jumps, jf)
 	iter(dry)
 	f.jumps = f.jumps[:len(f.jumps)-1]
-	e.quiet = saveQuiet
+	e.quiet, e.dry = saveQuiet, saveDry
 	outs := []*State{dry}
 	outs = append(outs, jf.breaks...)
 	outs = append(outs, jf.continues...)
@@ -100,4 +100,11 @@ func (e *Exec) ghostEffects(st *State, iter func(*State)) {
 			}
 		}
 	}
+}
+
+// suppressSites: call-site clauses, tracked ghosts and called() flags belong to the function under contract
+// itself: they are not applied inside inlined callees. During the dry run of a loop body they ARE applied
+// (that is how the ghosts a loop changes are discovered); the obligations emitted meanwhile are discarded.
+func (e *Exec) suppressSites() bool {
+	return e.inlineDepth > 0 || (e.quiet && !e.dry)
 }
